@@ -173,9 +173,13 @@ def audit(pid, meta, broken):
 def load_findings():
     path = os.path.join(VERIF, 'known_findings.json')
     try:
-        return json.load(open(path))
+        d = json.load(open(path))
     except FileNotFoundError:
-        return {'findings': []}
+        d = {'findings': []}
+    import glob
+    for f in sorted(glob.glob(os.path.join(VERIF, 'findings.d', '*.json'))):
+        d['findings'].append(json.load(open(f)))
+    return d
 
 
 def main():
